@@ -2,12 +2,20 @@ package harness
 
 import (
 	"os"
+	"strconv"
 	"runtime"
 	"testing"
 )
 
 func TestMain(m *testing.M) {
-	runtime.GOMAXPROCS(1)
+	n := 1
+	if v := os.Getenv("DSIM_SELFTEST_GOMAXPROCS"); v != "" {
+		// honoured only by the determinism self-test
+		if k, err := strconv.Atoi(v); err == nil && k > 0 {
+			n = k
+		}
+	}
+	runtime.GOMAXPROCS(n)
 	os.Exit(m.Run())
 }
 
